@@ -249,6 +249,36 @@ pub fn build(p: &P) -> Cmd {
             let x = areq(&ctx, u, 0).await;
             ctx.send_event(Event::got(u, x));
         }),
+        P::StreamUntil(s, t) => Command::new(move |ctx| async move {
+            let mut st = astream(&ctx, s, 0);
+            let mut stop = areq_owned(ctx.clone(), t, 0);
+            let mut stream_ended = false;
+            loop {
+                if stream_ended {
+                    let w = stop.await;
+                    ctx.send_event(Event::got(t, w));
+                    break;
+                }
+                match futures::future::select(st.next(), &mut stop).await {
+                    Either::Left((Some(v), _)) => ctx.send_event(Event::got(s, v)),
+                    Either::Left((None, _)) => stream_ended = true,
+                    Either::Right((w, _)) => {
+                        ctx.send_event(Event::got(t, w));
+                        break;
+                    }
+                }
+            }
+        }),
+        P::SpawnChain(s, t) => Command::new(move |ctx| async move {
+            ctx.spawn(move |ctx| async move {
+                let v = areq(&ctx, s, 0).await;
+                ctx.send_event(Event::got(s, v));
+                ctx.spawn(move |ctx| async move {
+                    let w = areq(&ctx, t, v).await;
+                    ctx.send_event(Event::got(t, w));
+                });
+            });
+        }),
         P::JoinTwice(s, m) => Command::new(move |ctx| async move {
             let jh = ctx.spawn(move |ctx| async move {
                 let v = areq(&ctx, s, 0).await;
